@@ -8,6 +8,9 @@ CONSTANTS
   FixBatch = FALSE
   LossySend = FALSE
   HasKeepalive = TRUE
+  DirectCalls = TRUE
+  MaxMsgLen = 1
+  AsyncApply = FALSE
   Eager = TRUE
 VIEW GenView
 INVARIANTS TrapDeadlock
